@@ -157,9 +157,8 @@ theorem run_final (P : Params) (hP : P.WF) (O : Oracle) (parts : List (List Nat)
 theorem alignDown_eq_C01 (x : Nat) : alignDown x = Props.C01.moveOffset x := rfl
 
 theorem moveOffset_mod16 {β : Type} (P : Params) (w : Win β) : moveOffset P w % 16 = 0 := by
-  unfold moveOffset
-  rw [alignDown_eq_C01]
-  exact Props.C01.moveOffset_mod16 _
+  unfold moveOffset moveOffsetPinned
+  split <;> (rw [alignDown_eq_C01]; exact Props.C01.moveOffset_mod16 _)
 
 /-! ## 2. The look-ahead guarantee -/
 
